@@ -19,6 +19,8 @@ KERNELS = [
     ("candid", r"^candid::types::number::Int::encode$"),
     ("candid", r"^candid::types::number::Int::encode::\{closure#0\}$"),
     ("candid", r"^candid::types::number::Int::decode$"),
+    ("candid", r"^<&mut candid::de::Deserializer<'de> as serde_core::de::Deserializer<'de>>::deserialize_i128$"),
+    ("candid", r"^<&mut candid::de::Deserializer<'de> as serde_core::de::Deserializer<'de>>::deserialize_u128$"),
     ("candid", r"^candid::de::Deserializer::<'de>::try_read_leb_u64$"),
     ("candid", r"^candid::de::Deserializer::<'de>::try_read_leb_i64$"),
     ("candid", r"^candid::de::Deserializer::<'de>::read_leb_u64$"),
